@@ -6,5 +6,18 @@ Ins(i) == [del |-> {}, add |-> <<i>>]
 ShapesA == {Upd("a"), Upd("b"), Del("a")}
 ShapesB == {Upd("a"), Del("a"), [del |-> {}, add |-> <<>>], [del |-> {"a", "b"}, add |-> <<"b">>], Ins("b")}
 ShapesC == {Upd("a"), Del("a")}
-Bound == nextH <= 9
+Bound == nextH <= 12 /\ nextEpoch <= 16
+\* liveness: one incarnation (no crash, no reopen), so the state space is finite
+\* without a state constraint (a constraint could hide non-progress cycles)
+LiveNext ==
+  \/ \E c \in Clients, sh \in Shapes : Invoke(c, sh)
+  \/ \E c \in Clients : Prepare(c) \/ IntroduceBatch(c) \/ Return(c)
+  \/ \E r \in Readers : ReaderOpen(r) \/ ReaderClose(r)
+  \/ PGrab \/ PMemMergeWrite \/ PMemMergeLoad \/ PMemMergeIntro \/ PPersistSeg \/ PLoadSeg
+  \/ PIntroPersist \/ PPersistSnap \/ PCommit \/ PAck
+  \/ PCleanupSnap \/ PCleanupSeg \/ PCleanupDone \/ PFail
+  \/ MWake \/ MPlan \/ MLoad \/ MIntro \/ MDone \/ MFail
+  \/ CloseCall \/ IExit \/ PExit \/ MExit \/ CloseDone
+LiveSpec == Init /\ [][LiveNext]_vars /\ WF_vars(PersisterStep) /\ WF_vars(MergerStep) /\ WF_vars(ClientStep)
+                 /\ WF_vars(IExit) /\ WF_vars(CloseDone)
 =========================================================================
